@@ -74,6 +74,21 @@ CTL_SRC = CONTENT_SRC + '''
 EPOCHS = {}    # (tag, target) -> epoch, written by the harness
 RUNLOG = []    # (tag, target, [(source tag, value, content seen)], epoch, outputs) appended by every run()
 HOOK = [None]  # called as HOOK[0](tag, target) when an algorithm has loaded its inputs and not yet stored
+FAIL = {}      # (tag, target) -> how the next run of that unit ends, written by the harness
+
+def fail(tag, target):
+    import dawgie
+    kind = FAIL.pop((tag, target), None)
+    if kind == 'runtime':
+        raise RuntimeError('injected failure of ' + tag)
+    if kind == 'invalid-in':
+        raise dawgie.NoValidInputDataError('injected: ' + tag)
+    if kind == 'invalid-out':
+        raise dawgie.NoValidOutputDataError('injected: ' + tag)
+    if kind == 'exit':
+        raise SystemExit(3)          # library code calling sys.exit()
+    if kind == 'interrupt':
+        raise KeyboardInterrupt()
 '''
 
 TASK_SRC = '''
@@ -142,6 +157,7 @@ class Base(dawgie.Algorithm):
         ctl.RUNLOG.append((self.TAG, target, list(ins), epoch, outs))
         if ctl.HOOK[0] is not None:
             ctl.HOOK[0](self.TAG, target)   # the harness may let other units run here: a real overlap
+        ctl.fail(self.TAG, target)
         self._sv[self.VALUES[0]] = V(ctl.content(self.TAG, 0, self.VALUES[0], target, epoch, ins))
         if self.CHECKPOINT:
             ds.update()    # check-point: do not lose the quick product if the rest crashes
@@ -183,6 +199,7 @@ class ABase(dawgie.Analyzer):
         ctl.RUNLOG.append((self.TAG, '__all__', list(ins), None, outs))
         if ctl.HOOK[0] is not None:
             ctl.HOOK[0](self.TAG, '__all__')
+        ctl.fail(self.TAG, '__all__')
         for k, vn in enumerate(self.VALUES):
             self._sv[vn] = V(ctl.content(self.TAG, k, vn, '__all__', None, ins))
         outs.extend(self._sv[vn].x for vn in self.VALUES)
@@ -404,7 +421,7 @@ class World:
         spec.loader.exec_module(fresh)
         for n in ('targets', 'next', 'add', 'connect', 'update', 'reopen', 'close'):
             P.set(dawgie.db, n, getattr(fresh, n))
-        P.set(dawgie.pl.logger.chronicle, 'append', lambda e: None)
+        P.set(dawgie.pl.logger.chronicle, 'append', lambda e: self.chronicle.append(dict(e)))
         P.set(dawgie.pl.worker.Context, 'abort', lambda self: False)
         P.set(dawgie.pl.dag.Construct, 'graph', staticmethod(sched_env._fast_graph))  # pylint: disable=protected-access
         P.set(self.store.dbutil, 'subprocess', types.SimpleNamespace(check_output=_fake_digest))
@@ -470,6 +487,10 @@ class World:
         P.set(S, 'next_job_batch', released)
         self.cause = set()       # (tag, target) with a reason to run: requested or an input reported new
         self.executed = []       # (tag, target, run id, [new value names])
+        self.failed = []         # (tag, target, success flag of the answer | None when no answer came)
+        self.worker_deaths = []  # (tag, target, exception that left cluster.execute)
+        self.chronicle = []      # what schedule.complete handed to chronicle.append
+        self.on_result = None    # monitor called around the farm's handling of every worker answer
         self.problems = []
         self.epochs = {}         # (root tag, target) -> epoch of its source data
         self.later_bumps = []    # root re-runs still to come
@@ -576,19 +597,11 @@ class World:
         """what pl/worker/cluster.py:execute does with a task message, then the farm's `_res`"""
         d, M = self.d, self.M
         unit = (m.jobid, m.target or '__all__')
-        ctxt = d.pl.worker.Context(('sim', 0), d.context.git_rev)
         self._cur.pop(unit, None)
-        try:
-            factory = getattr(importlib.import_module(m.factory[0]), m.factory[1])
-            nv = ctxt.run(factory, 0, m.jobid, m.runid, m.target, m.timing)
-            r = M.make(typ=M.Type.response, inc=m.target, jid=m.jobid, rid=m.runid, suc=True, tim=m.timing, val=nv)
-        except (d.NoValidInputDataError, d.NoValidOutputDataError):
-            nv = []
-            r = M.make(typ=M.Type.response, inc=m.target, jid=m.jobid, rid=m.runid, suc=None, tim=m.timing)
-        except Exception as e:  # pylint: disable=broad-except
-            nv = []
-            self.problems.append(('C02:e2e-no-quiescence', f'{m.jobid}[{m.target}] failed in the worker: {e!r}'))
-            r = M.make(typ=M.Type.response, inc=m.target, jid=m.jobid, rid=m.runid, suc=False, tim=m.timing)
+        r, raw = self.real_worker(m)
+        nv = list(r.values or []) if r is not None and r.type.name == 'response' else []
+        if r is None or r.type.name != 'response' or r.success is not True:
+            self.failed.append((m.jobid, m.target or '__all__', None if r is None else r.success))
         new = sorted({n for n, isnew in nv if isnew and '__metric__' not in n})
         self.executed.append((m.jobid, m.target, m.runid, ['.'.join(n.split('.')[2:]) for n in new]))
         # what the report entitles to run: every declared consumer of a value reported new, for that target
@@ -597,12 +610,72 @@ class World:
             for c in self.consumers.get('.'.join(parts[2:]), []):
                 self.cause.update(self.units_of(c, parts[1]))
         e = self._cur.pop(unit, None)
-        if r.success is not True or e is None:
+        if r is None or r.type.name != 'response' or r.success is not True or e is None:
             self.outside = self.outside or f'{m.jobid}[{m.target}] did not succeed with one run() call'
         else:
             self.note(('write', m.jobid, m.target or '__all__', list(e[4])), new=list(new))
-        self.F.Hand._res(r)  # pylint: disable=protected-access
+        # what the worker sent back reaches the farm the way it does in production: as the first bytes on a
+        # new connection, through the real Hand.dataReceived
+        before = self.snapshot() if self.on_result else None
+        n_hist = len(self.chronicle)
+        if raw:
+            hand = self.F.Hand(collections.namedtuple('IPV4', ['host', 'port'])('sim', 1))
+            hand.transport = _Wire([])
+            hand.dataReceived(raw)
+        if self.on_result:
+            self.on_result(self, m, r, before, self.snapshot(), self.chronicle[n_hist:])
         self.note(('reply', m.jobid, m.target or '__all__', m.runid))
+
+    def real_worker(self, m):
+        """the real pl.worker.cluster.execute for one task message: registers, waits, gets the task, runs it
+        and sends its answer; sockets are in-memory, the database stays the loop-back store"""
+        d, M = self.d, self.M
+        import dawgie.pl.worker.cluster as cluster
+        inbox = [M.dumps(M.make(typ=M.Type.wait)), M.dumps(m)]
+        sent_back = []   # local: executions nest (a unit that has loaded lets its roots run and report)
+
+        class Sock:
+            def __init__(self, first):
+                self.first, self.buf = first, b''
+
+            def sendall(self, b):
+                if not self.first:
+                    sent_back.append(bytes(b))   # second connection: the answer
+
+            def recv(self, n):
+                if not self.buf:
+                    data = inbox.pop(0)
+                    self.buf = struct.pack('>I', len(data)) + data
+                out, self.buf = self.buf[:n], self.buf[n:]
+                return out
+
+            def close(self):
+                return
+
+        socks = []
+
+        def connect(_address):
+            socks.append(Sock(first=not socks))
+            return socks[-1]
+
+        P = Patches()
+        P.set(d.security, 'connect', connect)
+        P.set(d.pl.worker, 'load_context_with_overrides', lambda _c: None)
+        P.set(d.pl.worker, 'LOGGING', types.SimpleNamespace(reassign=lambda _h: None))
+        P.set(d.db, 'reopen', lambda: None)
+        P.set(d.db, 'close', lambda: None)
+        P.set(cluster.signal, 'signal', lambda *_a: None)
+        try:
+            cluster.execute(('sim', 0), 1, 0, d.context.git_rev)
+        except BaseException as e:  # pylint: disable=broad-except
+            # SystemExit / KeyboardInterrupt leaving the worker: the process dies after its finally block
+            self.worker_deaths.append((m.jobid, m.target or '__all__', type(e).__name__))
+        finally:
+            P.restore()
+        if not sent_back:
+            return None, b''
+        raw = b''.join(sent_back)
+        return M.loads(raw[4:]), raw
 
     def pending(self):
         return {j.tag: (sorted(j.get('todo')), sorted(j.get('doing'))) for j in self.S.que
